@@ -237,7 +237,7 @@ func (sc *vC20Scenario) knownSize(n int) string {
 
 func TestVerif_C20_reset(t *testing.T) {
 	vh.Run(t, vh.Spec{Prop: "C20", Unit: "reset", Quick: 1200, Thorough: 25000, CostMs: 35, WallS: 120,
-		Rule:    "ResettableKeystore in shared and factory mode (prefixBits {0,8,16}, batchSize {1,2,3,7}, buffer cap {1,2,64}): sequential preparation (0-3 puts, optional clean restart, optional complete reset so that the live slot is 1), then ResetCids with 0-30 CIDs fed through an unbuffered channel and 0-6 concurrent Puts (1-3 keys) steered into: overlap with the start, phase A after the i-th CID, the gate at phase A's final sync, the gate at phase B's count, the gate inside phase C's checked drain (tail, drained by the worker before the swap), after the reset; end = completion, cancellation or Close at one of these positions, or an injected error of the gated access itself (phase A's final sync, phase B's count, the batch of phase C's drain) after the puts of that gate; unless the case closed the keystore, a second sequential ResetCids (0-5 CIDs) follows on the same live keystore and must leave exactly its keys (live, and at every crash point: exactly the contents before it or exactly its keys). Oracle on the live keystore after the run, after a clean Close + reopen, and after a crash at EVERY write boundary of the whole journal under the prefix model and four subset-model survivor choices: contents = previous set + acknowledged puts, or new set + puts issued after the reset consumed its first CID (or reached a gate) and acknowledged (overlapping puts optional, unacknowledged puts optional), never a mixture; a reset that returned nil without cancel/Close in flight must be found replaced; Size = number of keys. Non-trivial = at least one put was acknowledged while the reset was in phase A, at a gate or in the tail; distinct by (config, end, phases, counts)",
+		Rule:    "ResettableKeystore in shared and factory mode (prefixBits {0,8,16}, batchSize {1,2,3,7}, buffer cap {1,2,64}): sequential preparation (0-3 puts, optional clean restart, optional complete reset so that the live slot is 1), then ResetCids with 0-30 CIDs fed through an unbuffered channel and 0-6 concurrent Puts (1-3 keys) (every third case also issues an overlapping, refused ResetCids at each held gate after the gate's puts) steered into: overlap with the start, phase A after the i-th CID, the gate at phase A's final sync, the gate at phase B's count, the gate inside phase C's checked drain (tail, drained by the worker before the swap), after the reset; end = completion, cancellation or Close at one of these positions, or an injected error of the gated access itself (phase A's final sync, phase B's count, the batch of phase C's drain) after the puts of that gate; unless the case closed the keystore, a second sequential ResetCids (0-5 CIDs) follows on the same live keystore and must leave exactly its keys (live, and at every crash point: exactly the contents before it or exactly its keys). Oracle on the live keystore after the run, after a clean Close + reopen, and after a crash at EVERY write boundary of the whole journal under the prefix model and four subset-model survivor choices: contents = previous set + acknowledged puts, or new set + puts issued after the reset consumed its first CID (or reached a gate) and acknowledged (overlapping puts optional, unacknowledged puts optional), never a mixture; a reset that returned nil without cancel/Close in flight must be found replaced; Size = number of keys. Non-trivial = at least one put was acknowledged while the reset was in phase A, at a gate or in the tail; distinct by (config, end, phases, counts)",
 		Clauses: []string{"reset-live-contents", "reset-live-size", "crash-contents", "crash-size", "reset-returns", "reset-second"}},
 		func(c *vh.Case) {
 			p := vC20GetPool()
@@ -445,6 +445,29 @@ func TestVerif_C20_reset(t *testing.T) {
 							sc.issue(pt, "during")
 							sc.await(pt, resetDone)
 						}
+					}
+					if c.Idx%3 == 0 {
+						// an intruder: a second ResetCids while the first one is held at the gate. It is refused
+						// (one reset at a time); whatever it returns, it must not disturb the reset in progress -
+						// the puts acknowledged so far are judged by the contents oracle below as in every case
+						// (its context is cancelled after a few ms of pacing: with the put buffer at capacity the
+						// worker is parked until the next drain and cannot take the request while the gate is held)
+						ictx, icancel := context.WithCancel(vC20Ctx)
+						idone := make(chan error, 1)
+						go func() { idone <- rks.ResetCids(ictx, vC20CidChan(nil)) }()
+						var errI error
+						select {
+						case errI = <-idone:
+						case <-time.After(5 * time.Millisecond):
+							icancel()
+							errI = <-idone
+						}
+						icancel()
+						c.Obs("overlapping_resets_issued", 1)
+						if errI != nil && errI != context.Canceled {
+							c.Obs("overlapping_resets_refused", 1)
+						}
+						c.Logf("overlapping ResetCids at gate %d returned %v", gi, errI)
 					}
 					if vC20GateOf[sc.endAt] == gi && !ended {
 						if sc.endMode == "fault" {
